@@ -13,13 +13,14 @@ VB = ["asan", "asan-vb"]
 I64 = ["asan", "asan-i64"]
 ALL3 = ["asan", "asan-vb", "asan-i64"]
 OVERRIDE = {
-    "C01": {"thorough": dict(configs=ALL3)}, "C02": {"thorough": dict(configs=ALL3)}, "C03": {"thorough": dict(configs=ALL3, fuzz=FUZZ)},
-    "C05": {"thorough": dict(configs=VB)}, "C12": {"thorough": dict(configs=VB)}, "C13": {"thorough": dict(configs=VB)}, "C14": {"thorough": dict(configs=VB, fuzz=FUZZ)},
+    "C01": {"thorough": dict(configs=ALL3)}, "C02": {"thorough": dict(configs=ALL3, fuzz=FUZZ)}, "C03": {"thorough": dict(configs=ALL3, fuzz=FUZZ)},
+    "C05": {"thorough": dict(configs=VB, fuzz=FUZZ)}, "C12": {"thorough": dict(configs=VB)}, "C13": {"thorough": dict(configs=VB, fuzz=FUZZ)}, "C14": {"thorough": dict(configs=VB, fuzz=FUZZ)},
     "C07": {"thorough": dict(configs=I64)}, "C17": {"thorough": dict(configs=I64)}, "C19": {"thorough": dict(configs=I64, fuzz=FUZZ)}, "C06": {"thorough": dict(configs=VB, fuzz=FUZZ)}, "C15": {"thorough": dict(configs=I64, fuzz=FUZZ)},
     "C16": {"thorough": dict(fuzz=FUZZ)},
     "C09": {"quick": dict(types="d", shards=6, configs=["tsan", "asan"], cases=1500, budget=45, alarm=120), "thorough": dict(types="d", shards=8, configs=["tsan", "asan"], cases=20000, budget=600)},
     "C08": {"quick": dict(cases=1500, budget=50, alarm=180), "thorough": dict(cases=20000, budget=600, configs=["asan", "asan-i64"], alarm=300)},
-    "C10": {"quick": dict(types="d", shards=16), "thorough": dict(types="d", shards=8, configs=["asan", "asan-i64"])},
+    "C10": {"quick": dict(types="d", shards=16), "thorough": dict(types="d", shards=8, configs=["asan", "asan-i64"], fuzz=FUZZ)},
+    "C18": {"thorough": dict(fuzz=FUZZ)},
 }
 
 COMMON_ASSUME = [
